@@ -271,11 +271,11 @@ def bind_params(ex, fn, f, st, inp):
     for p in fn['params']:
         t = p['t']
         if not bound and is_input_type(t):
-            f.env[p['id']] = inp; bound = True
+            EnvView(st, f.fid)[p['id']] = inp; bound = True
         elif t.endswith('&') and ('unsigned long' in t or 'size_t' in t or t in ('unsigned int &', 'unsigned char &', 'int &', 'signed char &', 'const unsigned long &')):
             v = st.sym(0, None)
-            a = st.alloc(['cell', v]); f.env[p['id']] = ('refto', ('cell', a))
+            a = st.alloc(['cell', v]); EnvView(st, f.fid)[p['id']] = ('refto', ('cell', a))
         elif t.endswith('&'):
-            f.env[p['id']] = Obj(st.alloc({'__type': t, '__state': True, '__idx': nstate})); nstate += 1
+            EnvView(st, f.fid)[p['id']] = Obj(st.alloc({'__type': t, '__state': True, '__idx': nstate})); nstate += 1
         else:
-            f.env[p['id']] = st.sym(0, None) if ('unsigned' in t or 'size_t' in t) else Unknown('param')
+            EnvView(st, f.fid)[p['id']] = st.sym(0, None) if ('unsigned' in t or 'size_t' in t) else Unknown('param')
